@@ -23,11 +23,14 @@ UNIT = Unit(
                         && res.pools@ == Map::<PoolKey, PoolState>::empty() && res.fee_pool == self.init_fee_pool && res.fee_multiplier == self.init_fee_multiplier && res.tips.0 == 0 && res.dosc_speed == 1_000_000
                         && (forall|h: TxHash| #[trigger] res.stakes@.contains_key(h) <==> self.stakes@.contains_key(h)) && (forall|h: TxHash| res.stakes@.contains_key(h) ==> #[trigger] res.stakes@[h] == self.stakes@[h])""", "C07", "C13"),
                     C("coin", """res.coins@.coins == IMap::<CoinID, CoinDataHeight>::empty().insert(CoinID { txhash: TxHash(spec_zero_hash()), index: 0 }, CoinDataHeight { height: BlockHeight(0), coin_data: self.init_coindata })""", "C01", "C02"),
+                    C("no_markers", "markers_ok(res.coins@.coins)", "C19", note="base case of the marker invariant: the genesis coin sits under the all-zero transaction hash, which is no marker id (A-HASH)"),
                     C("invariants", "state_inv(res) && chain_ok(res) && pools_ok(res.pools@) && builtins_if_present(res)", "C20", "C16", "C07",
                       note="base case of the state invariants that every transition under contract preserves")],
            rewrites=[("SUB", "let mut new_state = UnsealedState {", "let __bv = btree_into_vec(self.stakes); let ghost bvs = __bv@; let ghost m0 = self.stakes@; let mut new_state = UnsealedState {"),
                      ("SUB", "StakeSet::new(self.stakes.into_iter())", "StakeSet::new(__bv)")],
            injects=[Inject(("before", "new_state.coins.insert_coin("), "proof { lemma_counts_ok_empty(); assert(new_state.coins@ == (CoinsView { coins: IMap::<CoinID, CoinDataHeight>::empty(), counts: IMap::<Address, nat>::empty() })); }"),
+                    Inject("before_tail", """proof { broadcast use axiom_marker_nonzero;
+                        assert forall|h: TxHash| !new_state.coins@.coins.contains_key(#[trigger] spec_marker(h)) by { assert(spec_fdp_hash(h) != spec_zero_hash()); assert(spec_marker(h) != (CoinID { txhash: TxHash(spec_zero_hash()), index: 0 })); } }"""),
                     Inject("before_tail", """proof { let z = CoinID { txhash: TxHash(spec_zero_hash()), index: 0 };
                assert(origin_ok(new_state.coins@.coins)) by { assert forall|tx: Transaction, i: int| 0 <= i < tx.outputs@.len() && i <= 255 && new_state.coins@.coins.contains_key(#[trigger] cid(tx, i))
                    implies new_state.coins@.coins[cid(tx, i)].coin_data.covhash == tx.outputs@[i].covhash by { assert(cid(tx, i) == z); assert(spec_txhash(tx).0 == spec_zero_hash()); } }
